@@ -825,7 +825,13 @@ impl Lexer<'_> {
         }
 
         self.emit_token(tok_channel, tok_type, Payload::None);
-        self.pop_mode();
+
+        // On EOF (`next_char` is `None`) we are called from `finalize_lexing`,
+        // which has already popped this mode while unwinding the stack.
+        // Popping again would drop the next mode without finalizing it.
+        if next_char.is_some() {
+            self.pop_mode();
+        }
     }
 
     fn dispatch_mode_default(&mut self, next_char: char) {
